@@ -21,6 +21,16 @@ number of spans, every fence width and padding `print` can choose), together wit
 (`SpanDoc`).  One case is excluded by the sub-grammar predicate: an escaped backslash directly before a code span
 (`noBsBeforeCode`), which the implementation treats by another alternative of `BACKTICK_RE`; tested equal, not proved.
 
+Rung C (`C01_em_strong`): additionally paragraphs, ATX and Setext headings whose content is words, escapes and ONE
+level of emphasis around words — `.em [.text w]`, `.strong [.text w]`, any number of them, adjacent or not, with
+either delimiter character wherever `print` may choose it (`EmDoc`).  Code spans and emphasis are not mixed within one
+paragraph or heading (they may be in different blocks of the same document); deeper nesting is outside the predicate.
+The proof follows the emphasis engine's positive path: the five patterns of `AsteriskProcessor` / `UnderscoreProcessor`
+at a delimiter (`C01b_em_match`: which of them fail, which one matches, what `build`/`parse_sub_patterns` make of the
+group), the whole pattern loop on such a line (`C01b_em_loop`: escapes first, then the `*` emphases, then the `_`
+ones, each taken out of the text into the stash), `__processPlaceholders` putting them back as children with tails,
+the tree stages (`C01b_em_elem`), and the block stage on lines that start with emphasis delimiters (`C01b_em_line`).
+
 How it is proved: `C01_chunks`/`C01_leaves` of `Props/C01.lean` are generalised to
 * `Elem`/`ElemOK` (`C01b_render_elems`): one child of the root through inline processor, prettify, unescape, serializer
   — with what it adds to the stash and pushes on the inline processor's stack; the leaves of `Props/C01.lean` and
@@ -132,7 +142,102 @@ theorem C01_code_span (d : Doc) (sp : Spelling) (hwf : WF d = true) (hs : DocSpe
     Pipeline.convert {} (print d sp) = .ok (spec d) :=
   convert_spanDoc d sp hwf hs
 
+/-! ### rung C: one level of emphasis around words -/
+
+/-- **The emphasis patterns at a delimiter.**  In `A ++ d…d w d…d ++ Z` (one or two `d`, `d` = `*` or `_`, `w` letters,
+    digits and spaces, at least one) `handleMatch` at the first delimiter yields the element `<em>w</em>` /
+    `<strong>w</strong>` and the end of the closing delimiter: the patterns tried before the matching one fail
+    (`EM_STRONG`, `STRONG_EM`, `STRONG_EM3` / their `SMART_` forms), the matching one is `EMPHASIS_RE` / `STRONG_RE` /
+    `SMART_EMPHASIS` / `SMART_STRONG`.  For `_` the characters around must not be word characters and `___` must not
+    occur further on (which `SMART_STRONG_EM` would need). -/
+theorem C01b_em_match (s : EmSeg) (hd : s.d = '*' ∨ s.d = '_') (hw : WordOK s.w) (A Z : Str)
+    (hb : s.d = '_' → Inline.isW (lastOr none A) = false ∧ Inline.isW Z.head? = false ∧ NoTriple '_' Z) :
+    Inline.emHandle (A ++ (emSrc s ++ Z)) A.length s.d (Inline.emPatterns s.d) 0 =
+      some (some (emEl s.strong s.w, A.length + (emSrc s).length)) :=
+  emHandle_seg s hd hw A Z hb
+
+/-- **The pattern loop on a line with emphasis.**  On `escaped t0 ++ (d…d w d…d ++ escaped t)*` the sixteen patterns
+    leave the texts with their escapes as placeholders and a placeholder for every emphasis; the stash gets the escape
+    codes, then the `*` emphases, then the `_` ones. -/
+theorem C01b_em_loop (cfg : Inline.Cfg) (hE : EscOK cfg.esc) (t0 : Str) (segs : List EmSeg) (st : Inline.St)
+    (hok : EmOK segs) (hu : UnderOK cfg.esc (lastW cfg.esc t0) segs)
+    (hplain : ∀ c, (c ∈ t0 ∨ ∃ s ∈ segs, c ∈ s.t) → c ≠ '&' ∧ c ≠ '\n') :
+    Inline.handleInlineTop cfg (Escape.escAll cfg.esc t0 ++ rawEm cfg.esc segs) st =
+      some (Escape.resid cfg.esc st.stash.length t0 ++
+          stage3 cfg.esc (st.stash.length + Escape.escCount cfg.esc t0)
+            (st.stash.length + Escape.escCount cfg.esc t0 + escCountEm cfg.esc segs)
+            (st.stash.length + Escape.escCount cfg.esc t0 + escCountEm cfg.esc segs + (starNodes segs).length) segs,
+        { st with stash := st.stash ++ (Escape.stashOf cfg.esc t0 ++ stashOfEm cfg.esc segs ++ starNodes segs ++
+            underNodes segs) }) :=
+  handleInlineTop_em cfg hE t0 segs st hok hu hplain
+
+/-- **A paragraph or heading with emphasis is an element of the composition**: source `escaped t0 ++ …`, output
+    `<tag>t0<em>w</em>t…</tag>` (texts escaped for HTML). -/
+theorem C01b_em_elem (cfg : Inline.Cfg) (hE : EscOK cfg.esc) (tag t0 : Str) (segs : List EmSeg)
+    (h : EmTxtOK cfg.esc tag t0 segs) : ElemOK cfg (emTxtElem cfg.esc tag t0 segs) :=
+  emTxtElem_ok cfg hE tag t0 segs h
+
+/-- **The block stage on such a line**: it may start with one or two `*` / `_` followed by a letter or digit — no rule,
+    no list item. -/
+theorem C01b_em_line (esc : List Char) (hE : EscOK esc) (t0 : Str) (segs : List EmSeg) (h : EmLineOK t0 segs) :
+    RawOK (Escape.escAll esc t0 ++ rawEm esc segs) :=
+  rawOK_emLine hE t0 segs h
+
+/-- **The printed form**: whatever the spelling draws, the content is printed as escaped text and words between `*` or
+    `_`, and `_` is used only where the characters on both sides are not word characters. -/
+theorem C01b_em_print (c : List DocSpec.Inline) (h : emItemsOK c = true) (st : PSt) :
+    ∃ (segs : List EmSeg) (st' : PSt),
+      printInlines none true true c st = (Escape.escAll ESC (splitEm c).1 ++ rawEm ESC segs, st') ∧
+      st'.defs = st.defs ∧ segs.map (fun s => (s.strong, s.w, s.t)) = (splitEm c).2 ∧
+      (∀ s ∈ segs, s.d = '*' ∨ s.d = '_') ∧ UnderOK ESC (lastW ESC (splitEm c).1) segs := by
+  obtain ⟨segs, st', h1, h2, h3, h4, h5⟩ := printInlines_em c h true true st
+  exact ⟨segs, st', h1, h2, h3, h4, by rw [← pwOf_true]; exact h5⟩
+
+/-- **Rung C.**  `d` well-formed, every block a block of rung B or a paragraph / ATX heading / Setext heading of words,
+    escapes and `em` / `strong` around words: under EVERY spelling — `*` or `_` for each emphasis, wherever `print` may
+    choose — the converter returns `spec d`. -/
+theorem C01_em_strong (d : Doc) (sp : Spelling) (hwf : WF d = true) (hs : DocSpec.EmDoc d = true) :
+    Pipeline.convert {} (print d sp) = .ok (spec d) :=
+  convert_emDoc d sp hwf hs
+
 /-! ### the hypotheses are satisfiable; instances evaluated by the kernel -/
+
+/-- emphasis at the start, the end and in the middle of paragraphs and headings, adjacent emphases, emphasis next to
+    escapes (also an escaped `*` and `_`), words with spaces, and blocks of rung B in the same document -/
+def sampleEm : Doc :=
+  [.para [.em [.text (S "one")], .text (S " and "), .strong [.text (S "two words")], .esc '*', .em [.text (S "x")],
+     .text (S " "), .em [.text (S "y")], .esc '_'],
+   .atx 1 [.strong [.text (S "Bold")], .em [.text (S "it")], .text (S " tail "), .strong [.text (S "end 2")]],
+   .setext 2 [.text (S "A "), .em [.text (S "b c")], .text (S " "), .strong [.text (S "d")]],
+   .para [.text (S "code "), .code (S "a*b")],
+   .code [S "*raw*"]]
+
+example : WF sampleEm = true ∧ DocSpec.EmDoc sampleEm = true ∧ DocSpec.SpanDoc sampleEm = false := by decide
+
+example : print sampleEm ⟨[0, 1, 1, 3, 1, 5, 7, 2, 1, 1, 9, 3, 1, 1, 1, 1, 1, 1]⟩ =
+    ("_one_ and __two words__\\*_x_ _y_\\_\n\n# **Bold***it* tail __end 2__ #\n\n A _b c_ __d__\n--\n\n" ++
+     " code ``a*b``\n\n    *raw*").toList := by decide +kernel
+
+example : spec sampleEm =
+    ("<p><em>one</em> and <strong>two words</strong>*<em>x</em> <em>y</em>_</p>\n" ++
+     "<h1><strong>Bold</strong><em>it</em> tail <strong>end 2</strong></h1>\n<h2>A <em>b c</em> <strong>d</strong></h2>\n" ++
+     "<p>code <code>a*b</code></p>\n<pre><code>*raw*\n</code></pre>").toList := by decide +kernel
+
+example : Pipeline.convert {} (print sampleEm ⟨[0, 1, 1, 3, 1, 5, 7, 2, 1, 1, 9, 3, 1, 1, 1, 1, 1, 1]⟩) =
+    .ok (spec sampleEm) :=
+  C01_em_strong _ _ (by decide) (by decide)
+
+/-- the same instance evaluated by the kernel on the model, independently of the theorem -/
+example : Pipeline.convert {} (print sampleEm ⟨[0, 1, 1, 3, 1, 5, 7, 2, 1, 1, 9, 3, 1, 1, 1, 1, 1, 1]⟩) =
+    .ok (spec sampleEm) := by decide +kernel
+
+/-- outside the predicate: emphasis and a code span in one paragraph (the converter is right there too, by the kernel
+    on the model), and emphasis inside emphasis -/
+example : DocSpec.EmDoc [.para [.em [.text (S "a")], .code (S "x")]] = false ∧
+    Pipeline.convert {} (print [.para [.em [.text (S "a")], .code (S "x")]] ⟨[1, 1]⟩) =
+      .ok (spec [.para [.em [.text (S "a")], .code (S "x")]]) ∧
+    DocSpec.EmDoc [.para [.em [.strong [.text (S "a")]]]] = false := by decide +kernel
+
 
 /-- headings and paragraphs with several spans, spans next to escapes, a body of two backticks, a body that is a
     backslash, digits before a span, a code block in between -/
